@@ -15,10 +15,11 @@ Floats are IEEE bit patterns. A point is three tokens; a base is four tokens `G|
   track <G|N|E> <x,y,z;…> <barg> <op:barg>…   with barg = _ | G,x,y,z | E,x,y,z | S,n and op ∈ ENU GEO ECEF PROJ
                                      → per op `<kind> <pts> <barg>`; the first error ends the reply with `err:<kind>`
   hist <op>…                         a history on the object heap of `Model/GeoHeap.lean`. Values: `_` (None) | `S<n>` (int) |
-                                     `o<k>` (the k-th object created by a `new`/`call` op) | `t<k>p<i>` (the object that is now
+                                     `o<k>` (the k-th object created by a `new`/`call`/`tif` op) | `t<k>p<i>` (the object that is now
                                      the i-th position of track k) | `t<k>b` (what `Track.base` of track k is now).
                                      Ops: `new:<G|N|E>:x,y,z` | `set:<val>:<0|1|2>:x` | `call:<val>:<ECEF|ENU|GEO|PROJ>:<val>/…|-`
-                                     | `mk:<val>/…|-:<val>` | `tc:<k>:<ECEF|ENU|GEO|PROJ>:<val>`
+                                     | `mk:<val>/…|-:<val>` | `tc:<k>:<ECEF|ENU|GEO|PROJ>:<val>` | `tif:<k>` (toENUCoordsIfNeeded;
+                                     the result index is the returned base, `_` for None)
                                      → per op `<result index|_>|<new objects K,x,y,z;…|_>|<changed old objects i,x,y,z;…|_>|
                                      <track: p1,p2,…|-~base|_>` with base = `_` | `S,n` | `R,index`; the first error ends the
                                      reply with `err:<kind>` -/
@@ -208,6 +209,7 @@ def op? (st : HState) (tok : String) : Option (Op Float) :=
     let a ← val? st a
     if m == .proj then (match a with | .int _ => some (.trackConv k m a) | _ => none)
     else some (.trackConv k m a)
+  | ["tif", k] => k.toNat?.map .trackENUIf
   | _ => none
 
 def runHist : HState → List String → List String → String
@@ -227,6 +229,8 @@ def runHist : HState → List String → List String → String
           | .set _ _ _ => (none, none, st.named)
           | .mkTrack _ _ => (none, some st.w.tracks.length, st.named)
           | .trackConv k _ _ => (none, some k, st.named)
+          -- the returned base counts as a created object (`o<k>`); when the method returns None the entry designates nothing
+          | .trackENUIf k => (if w'.heap.length > n then some n else none, some k, st.named ++ [if w'.heap.length > n then n else w'.heap.length])
         runHist ⟨w', named⟩ toks (showStep st.w w' res trk :: acc)
 
 /-! ### the residual of Geo → ECEF → Geo on a (latitude, height) grid -/
